@@ -88,7 +88,7 @@ fn run(c: &SlotSeq, obs: &mut Obs) -> Result<(), String> {
     let mut max_f: Option<u32> = None;
     let mut fresh_after_f = false;
     let mut leading_zero_pair = false;
-    let mut record = |name: String, s: Slot, by_name: &mut BTreeMap<String, Slot>, by_slot: &mut BTreeMap<Slot, String>| -> Result<(), String> {
+    let record = |name: String, s: Slot, by_name: &mut BTreeMap<String, Slot>, by_slot: &mut BTreeMap<Slot, String>| -> Result<(), String> {
         if let Some(old) = by_name.get(&name) {
             if *old != s {
                 return Err(format!("the name {:?} denoted {:?} before and {:?} now", name, old, s));
